@@ -21,7 +21,7 @@ const pendingReason = "static rule set designed in DESIGN.md §5 but not yet imp
 
 func writeManifest(path string) error {
 	var checks []map[string]any
-	var na []map[string]string
+	na := []map[string]string{} // must marshal as [] (schema: array), never null
 	var ids []string
 	for i := 1; i <= 53; i++ {
 		ids = append(ids, fmt.Sprintf("C%02d", i))
